@@ -137,6 +137,11 @@ def run(res, tier, rng, table_diffs=()):
     cases = [("directed", d) for d in DIRECTED] + limit_shapes(tier)
     for _ in range(600 if tier == "quick" else 12000):
         cases.append(("calls", call_program(rng.fork())))
+    from .. import gen2
+    for _ in range(400 if tier == "quick" else 8000):
+        cases.append(("fn-values", gen2.fnvalue_program(rng.fork())))
+    for _ in range(200 if tier == "quick" else 4000):
+        cases.append(("nested-fn", gen2.nested_fn_program(rng.fork())))
     run_cases(res, "C12", cases, budget=3000000)
 
 
